@@ -66,8 +66,8 @@ pub fn make_member<P: G>(kind: &'static str, pos: usize, n: usize, d: usize) -> 
         wit.promises[0] = Some(1 + (pos as u64 & 1));
     }
     let ctx = contexts()[pos % 6];
-    let built = build_cached::<P>(&cfg, &wit).expect("member builds");
-    let proof = lib_prove(&built, &ctx, &mut HRng::chacha(pos as u64 + 17)).expect("member proves");
+    let built = build_cached::<P>(&cfg, &wit).honest();
+    let proof = lib_prove(&built, &ctx, &mut HRng::chacha(pos as u64 + 17)).honest();
     let mut statement = built.statement.clone();
     let mut proof_final = proof;
     let delta = Scalar::from(0x1234_5678u64);
@@ -491,7 +491,13 @@ fn run_group<P: G>(rep: &mut Report) {
     let n = 2;
     let degrees: Vec<usize> = if thorough { vec![1, 2, 6] } else { vec![1, 2] };
     for d in degrees {
-        let tpl = Arc::new(templates::<P>(n, d, depth.max(3), &KINDS));
+        let tpl = match honest_scope(|| templates::<P>(n, d, depth.max(3), &KINDS)) {
+            Some(t) => Arc::new(t),
+            None => {
+                *rep.outcomes.entry("honest-precondition-failed(skipped)".into()).or_insert(0) += 1;
+                continue;
+            },
+        };
         for p in &tpl.problems {
             rep.binding.push(("C03/member-templates".into(), p.clone()));
         }
@@ -506,7 +512,13 @@ fn run_group<P: G>(rep: &mut Report) {
             vec![257, 513]
         };
         let maxlen = *lengths.iter().max().unwrap();
-        let long = Arc::new(templates::<P>(n, d, maxlen, &["V", "S", "I", "Ip", "Im", "V2"]));
+        let long = match honest_scope(|| templates::<P>(n, d, maxlen, &["V", "S", "I", "Ip", "Im", "V2"])) {
+            Some(t) => Arc::new(t),
+            None => {
+                *rep.outcomes.entry("honest-precondition-failed(skipped)".into()).or_insert(0) += 1;
+                continue;
+            },
+        };
         for p in &long.problems {
             rep.binding.push(("C03/long-member-templates".into(), p.clone()));
         }
